@@ -922,3 +922,32 @@ pub fn emit_fmt(a: &Args, out: &mut Out) {
         out.emit(rec);
     }
 }
+
+
+// ---------------------------------------------------------------------------
+// RP: the programs enumerated by TLC (spec/MC_AsmRP.tla) through the real assembler
+/// `lc3v replay asm hist=<file> ops=<file>`: ops lists the statement templates (one per line, as the
+/// generator's statements), a history is a sequence of template numbers.
+pub fn replay_asm(a: &Args, out: &mut Out) {
+    let mut rng = rng_for(a, 0xA5B);
+    let cps = |v: &Value| -> String { v.as_array().unwrap().iter().map(|c| char::from_u32(c.as_u64().unwrap() as u32).unwrap()).collect() };
+    let tpls: Vec<GStmt> = std::fs::read_to_string(a.get_str("ops", "")).expect("ops file").lines().filter(|l| !l.trim().is_empty()).map(|l| {
+        let v: Value = serde_json::from_str(l).expect("template");
+        let n = &v["n"];
+        let mut g = GStmt::new(n["k"].as_str().unwrap(), n["a"].as_i64().unwrap(), n["b"].as_i64().unwrap(), n["c"].as_i64().unwrap(), n["m"].as_i64().unwrap());
+        g.lbl = cps(&n["lbl"]); g.s = cps(&n["str"]);
+        for l in v["labels"].as_array().unwrap() { g.labels.push(cps(l)); }
+        g
+    }).collect();
+    let hist = std::fs::read_to_string(a.get_str("hist", "")).expect("hist file");
+    let mut run = 0u64;
+    for line in hist.lines() {
+        if line.trim().is_empty() { continue; }
+        let h: Vec<usize> = serde_json::from_str(line).expect("history");
+        run += 1;
+        let prog: Vec<GStmt> = h.iter().map(|&t| tpls[t - 1].clone()).collect();
+        let r = asmgen::render(&mut rng, &prog, &Style::plain());
+        let (rec, _) = asm_record(&mut rng, run, &r.text, run % 2 == 0, Some(&prog), true);
+        out.emit(rec);
+    }
+}
